@@ -107,7 +107,7 @@ def execute(spec):
         viols.append({"property": "C18", "invariant": inv, "msg": msg, "features": feats + list(extra), "input": text})
 
     old = signal.signal(signal.SIGALRM, _alarm)
-    signal.alarm(120)
+    signal.alarm(300)
     try:
         sched = Scheduler(**spec["sched"])
         try:
